@@ -28,8 +28,9 @@ def tokid(tok):
 def member(ex, st, tok, name, tid):
     """symbolic JSON member `name` of the verified payload of tok, as a Go value of type tid"""
     minted = st.aux.get('tokens', {}).get(tokid(tok))
-    if minted is not None and name in minted['claims']:
-        return minted['claims'][name]
+    if minted is not None:
+        if name in minted['claims']: return minted['claims'][name]
+        return ex.zero(tid)          # a member the producer did not emit decodes to the zero value
     k = ex.ir.kind(tid); key = f'jwt[{tokid(tok)}].{name}'
     if k == 'basic':
         bk = ex.ir.basic(tid)
